@@ -17,6 +17,8 @@ pub const LN: usize = 6;
 pub const LF: usize = 7;
 pub const NPROTO: usize = 8;
 
+pub static SPECS_CHANNEL: [u16; NPROTO] = [0, 8, 2, 10, 3, 4, 18, 19];
+
 pub static SPECS: [&Spec; NPROTO] = [
     &sp::HANDSHAKE,
     &sp::KEEPALIVE,
@@ -522,5 +524,19 @@ impl AnyState {
             },
             _ => Ok(()),
         }
+    }
+}
+
+/// structural rendering of a stack-2 message with version tables sorted (HashMap order is seeded)
+pub fn render2(m: &AnyMessage) -> String {
+    fn table(t: &p::handshake::n2n::VersionTable) -> String {
+        let mut ks: Vec<_> = t.values.iter().collect();
+        ks.sort_by_key(|x| *x.0);
+        format!("{:?}", ks)
+    }
+    match m {
+        AnyMessage::Handshake(p::handshake::Message::Propose(t)) => format!("Handshake(Propose({}))", table(t)),
+        AnyMessage::Handshake(p::handshake::Message::QueryReply(t)) => format!("Handshake(QueryReply({}))", table(t)),
+        other => format!("{:?}", other),
     }
 }
